@@ -578,7 +578,8 @@ Section DegenerateThm.
           { rewrite Hk3. unfold pe_dict. now rewrite keys_dmap. }
           destruct (get_keys_In H3 k Hk') as (h & _ & Hkh).
           destruct (Hin3 k h Hkh) as (v & g & _ & Hg & _).
-          unfold nl_log_gi, find_nest in Hg. rewrite Hl', find_map, Ef in Hg. simpl in Hg.
+          unfold nl_log_gi, find_nest in Hg. rewrite Hl', find_map in Hg.
+          cbn [cn_induced_nest nn_alts] in Hg. rewrite Ef in Hg. cbn [option_map] in Hg.
           rewrite Hal', Eal in Hg. discriminate. }
     rewrite V1, V2, W1, W2. split.
     - destruct (Rnz (aval i)) eqn:Ea; [|reflexivity]. f_equal.
@@ -586,3 +587,396 @@ Section DegenerateThm.
     - f_equal. exact (logit_p_shift aval _ _ (keys U) 0 i Hs Hi).
   Qed.
 End DegenerateThm.
+
+(* ------------------------------------------------------------------ explicit scale mu *)
+Lemma logcnlmu_inv util av a ch mu t :
+  logcnlmu util av a ch mu = Ok t ->
+  exists n H,
+    cn_make util a = Ok n /\
+    cn_guard util av n (zd_cn_mu mu (map cn_param (cn_list n))) = Ok tt /\
+    mev_h util (cn_log_gi_mu util av mu n) = Ok H /\
+    forall ch', logcnlmu util av a ch' mu = Ok (loglogit_e H av ch') /\
+                cnlmu util av a ch' mu = Ok (EUn Exp (loglogit_e H av ch')).
+Proof.
+  unfold logcnlmu at 1. intros E.
+  apply bind_Ok in E as (n & En & E). apply bind_Ok in E as ([] & Eg & E).
+  destruct (subsetZ (cn_alone n) (keys util)) eqn:Es; [|discriminate].
+  unfold logmev_f in E. apply bind_Ok in E as (H & EH & _).
+  exists n, H. repeat split; try assumption;
+    unfold cnlmu, logcnlmu; rewrite En; simpl; rewrite Eg; simpl; rewrite Es;
+    unfold logmev_f; rewrite EH; reflexivity.
+Qed.
+
+Section CnlMu.
+  Variable Phi : R -> R.
+  Variable en : env.
+  Notation ev e := (evalX Phi e en).
+  Notation pvx p := (pvX Phi en p).
+  Variable U : dict expr.
+  Variable av : avail.
+  Variables aval uval : Z -> R.
+  Let pU := pe_dict U.
+  Variable mu : pv.
+  Variable muv : R.
+
+  Hypothesis Hav : av_ok Phi en av aval.
+  Hypothesis Hnn : forall k, 0 <= aval k.
+  Hypothesis HU : forall k e, In (k, e) U -> ev e = XR (uval k).
+  Hypothesis Hmu : pvx mu = XR muv.
+  Hypothesis Hmupos : 0 < muv.
+
+  Definition pa_of (mu_m : pv) : R := xR (pvx (pdiv mu_m mu)).
+
+  Lemma pa_def mu_m mm : pvx mu_m = XR mm -> pvx (pdiv mu_m mu) = XR (pa_of mu_m).
+  Proof.
+    intros H. assert (Hz : muv <> 0) by lra.
+    destruct (pvX_pdiv_def Phi en mu_m mu mm muv H Hmu Hz) as [z Hz']. unfold pa_of. now rewrite Hz'.
+  Qed.
+
+  Lemma ev_cn_biosum_mu m mm :
+    cnest_ok Phi en m -> pvx (cn_param m) = XR mm ->
+    incl (keys (cn_alpha m)) (keys U) ->
+    (match av with None => True | Some a => incl (keys (cn_alpha m)) (keys a) end) ->
+    ev (cn_biosum_mu pU av mu m) = XR (bsum aval uval (pa_of (cn_param m)) mm (alphasR Phi en m)).
+  Proof.
+    intros [_ Hal] Hmm Hinc Hcov. unfold cn_biosum_mu, cn_alpha_e, dmap, alphasR, bsum.
+    rewrite map_map, Rsum_map.
+    apply (ev_multsum Phi en _ (fun jp => aval (fst jp) * Rpower (alR Phi en (snd jp)) (pa_of (cn_param m))
+                                          * exp (mm * uval (fst jp)))).
+    intros [j p] Hin. cbn [fst snd].
+    destruct (Hal j p Hin) as (a & Hp & Hpos).
+    assert (Hjk : In j (keys (cn_alpha m))) by now apply (In_keys _ j p).
+    assert (HalR : alR Phi en p = a) by (unfold alR; now rewrite Hp). rewrite HalR.
+    apply (ev_bio_term Phi en U av aval uval Hav HU (pdiv (cn_param m) mu) (cn_param m) _ mm j (to_e p) a);
+      try assumption.
+    - now apply (pa_def _ mm).
+    - now apply Hinc.
+    - destruct av; [now apply Hcov|exact I].
+  Qed.
+
+  Definition cterm_mu (m : cnest) (i : Z) (al : R) : R :=
+    Rpower al (pa_of (cn_param m)) * exp (c1_of Phi en (cn_param m) * uval i)
+    * Rpower (bsum aval uval (pa_of (cn_param m)) (muR Phi en (cn_param m)) (alphasR Phi en m))
+             (c2mu_of Phi en mu (cn_param m)).
+
+  Lemma ev_cn_term_mu m i p a :
+    cnest_ok Phi en m -> In (i, p) (cn_alpha m) -> pvx p = XR a -> 0 < a -> aval i <> 0 ->
+    incl (keys (cn_alpha m)) (keys U) ->
+    (match av with None => True | Some a => incl (keys (cn_alpha m)) (keys a) end) ->
+    ev (cn_term_mu pU av mu m i (to_e p)) = XR (cterm_mu m i a).
+  Proof.
+    intros Hok Hin Hp Hpos Ha Hinc Hcov. pose proof Hok as [(mm & Hmm & Hnz) Hal].
+    unfold cn_term_mu, cterm_mu.
+    assert (Hmm' : muR Phi en (cn_param m) = mm) by (unfold muR; now rewrite Hmm). rewrite Hmm'.
+    assert (Hik : In i (keys U)) by (apply Hinc; now apply (In_keys _ i p)).
+    destruct (getd_pU_all Phi en U uval HU i Hik) as (e & He' & He). fold pU in He'. rewrite He'.
+    pose proof (ev_cn_biosum_mu m mm Hok Hmm Hinc Hcov) as HB.
+    assert (HBpos : 0 < bsum aval uval (pa_of (cn_param m)) mm (alphasR Phi en m)).
+    { apply (bsum_pos aval uval _ mm (alphasR Phi en m) i (alR Phi en p)); [assumption| |assumption].
+      unfold alphasR. apply (in_map (fun jp => (fst jp, alR Phi en (snd jp))) _ (i, p)). assumption. }
+    rewrite !ev_bin.
+    rewrite (ev_epow Phi en (to_e p) _ a _ Hp Hpos (pa_def _ mm Hmm)).
+    rewrite (ev_epow Phi en _ _ _ _ HB HBpos (c2mu_def Phi en mu _ muv mm Hmu Hmm Hnz)).
+    rewrite ev_un_exp. change (ev (to_e (pmul ?x (PE e)))) with (pvx (pmul x (PE e))).
+    rewrite (pvX_pmul_PE Phi en _ e _ (uval i) (c1_def Phi en _ mm Hmm) He). reflexivity.
+  Qed.
+
+  Definition Gsum_mu (l : list cnest) (i : Z) : R :=
+    Rsum (fun m => match get (cn_alpha m) i with
+                   | Some p => cterm_mu m i (alR Phi en p)
+                   | None => 0
+                   end) l.
+
+  Lemma cterm_mu_pos m i a : 0 < cterm_mu m i a.
+  Proof.
+    unfold cterm_mu. apply Rmult_lt_0_compat; [apply Rmult_lt_0_compat|]; try apply exp_pos.
+  Qed.
+
+  Lemma Gsum_mu_pos l i m p : In m l -> get (cn_alpha m) i = Some p -> 0 < Gsum_mu l i.
+  Proof.
+    intros Hm Hg. unfold Gsum_mu. apply (Rsum_pos _ l m); [|assumption|].
+    - intros m' _. destruct (get (cn_alpha m') i); [left; apply cterm_mu_pos|lra].
+    - rewrite Hg. apply cterm_mu_pos.
+  Qed.
+
+  Lemma ev_gi_terms_mu (l : list cnest) i :
+    cnests_ok Phi en l -> aval i <> 0 ->
+    incl (List.concat (map (fun m => keys (cn_alpha m)) l)) (keys U) ->
+    (match av with None => True
+     | Some a => incl (List.concat (map (fun m => keys (cn_alpha m)) l)) (keys a) end) ->
+    xsum (map (fun e => ev e)
+            (flat_map (fun m => match get (cn_alpha_e m) i with
+                                | Some a => [cn_term_mu pU av mu m i a]
+                                | None => []
+                                end) l))
+    = XR (Gsum_mu l i).
+  Proof.
+    intros Hok Ha. induction l as [|m l IH]; intros Hinc Hcov; [reflexivity|].
+    simpl flat_map. rewrite map_app. unfold Gsum_mu. simpl Rsum.
+    assert (Hincm : incl (keys (cn_alpha m)) (keys U)).
+    { intros j Hj. apply Hinc. simpl. apply in_or_app. now left. }
+    assert (Hcovm : match av with None => True | Some a => incl (keys (cn_alpha m)) (keys a) end).
+    { destruct av; [|exact I]. intros j Hj. apply Hcov. simpl. apply in_or_app. now left. }
+    apply xsum_app_R.
+    - unfold cn_alpha_e. rewrite get_dmap. destruct (get (cn_alpha m) i) as [p|] eqn:Eg;
+        cbn [option_map map]; unfold xsum; cbn [fold_right]; [|reflexivity].
+      pose proof (get_In _ _ _ Eg) as Hin.
+      destruct (Hok m (or_introl eq_refl)) as [Hm Hal]. destruct (Hal i p Hin) as (a & Hp & Hpos).
+      rewrite (ev_cn_term_mu m i p a (Hok m (or_introl eq_refl)) Hin Hp Hpos Ha Hincm Hcovm).
+      assert (HalR : alR Phi en p = a) by (unfold alR; now rewrite Hp). rewrite HalR. simpl. f_equal. ring.
+    - apply IH.
+      + intros m' Hm'. apply Hok. now right.
+      + intros j Hj. apply Hinc. simpl. apply in_or_app. now right.
+      + destruct av; [|exact I]. intros j Hj. apply Hcov. simpl. apply in_or_app. now right.
+  Qed.
+
+  Definition hcn_mu (n : cn_nests) (i : Z) : R :=
+    if memZ i (cn_alone n) then uval i + (ln muv + cm1_of Phi en mu * uval i)
+    else uval i + ln (muv * Gsum_mu (cn_list n) i).
+
+  Lemma cn_gi_terms_mu_nonempty n i g :
+    cn_gi_terms_mu pU av mu n i = g -> g <> [] ->
+    exists m p, In m (cn_list n) /\ get (cn_alpha m) i = Some p.
+  Proof.
+    unfold cn_gi_terms_mu. intros <-. induction (cn_list n) as [|m l IH]; simpl; [tauto|].
+    unfold cn_alpha_e at 1. rewrite get_dmap.
+    destruct (get (cn_alpha m) i) as [p|] eqn:Eg; simpl.
+    - intros _. exists m, p. split; [now left|assumption].
+    - intros H. destruct (IH H) as (m' & p & Hm & Hp). exists m', p. split; [now right|assumption].
+  Qed.
+
+  Lemma cn_H_values_mu n zd H :
+    cn_guard pU av n zd = Ok tt ->
+    cnests_ok Phi en (cn_list n) ->
+    mev_h pU (cn_log_gi_mu pU av mu n) = Ok H ->
+    forall k h, In (k, h) H -> aval k <> 0 -> pvx h = XR (hcn_mu n k).
+  Proof.
+    intros Hg Hok EH k h Hin Ha.
+    destruct (cn_guard_inv _ _ _ _ Hg) as (Hinc & Hcov). unfold pU in Hinc. rewrite keys_pU in Hinc.
+    destruct (mev_h_inv _ _ _ EH) as [_ Hi]. destruct (Hi k h Hin) as (v & g & Hv & Hgk & ->).
+    apply In_pU in Hv as (e & -> & Hke). pose proof (HU k e Hke) as Hev.
+    destruct (getd_pU_all Phi en U uval HU k (In_keys U k e Hke)) as (e' & Eg' & Hev').
+    fold pU in Eg'.
+    unfold cn_log_gi_mu in Hgk. rewrite Eg' in Hgk. unfold hcn_mu. destruct (memZ k (cn_alone n)).
+    - injection Hgk as <-. rewrite ?pmul_PE_r, ?padd_PE_r.
+      pose proof (cm1_def Phi en _ muv Hmu) as C1.
+      unfold pvX in *. cbn [to_e].
+      rewrite !ev_bin, (ev_log_mu Phi en mu muv Hmu Hmupos), Hev, Hev', C1. reflexivity.
+    - destruct (cn_gi_terms_mu pU av mu n k) as [|t ts] eqn:Et; [discriminate|].
+      injection Hgk as <-. rewrite ?pmul_PE_r, ?padd_PE_r. unfold pvX in *. cbn [to_e].
+      rewrite ev_bin, Hev, ev_un_log, ev_bin, Hmu.
+      destruct (cn_gi_terms_mu_nonempty n k (t :: ts) Et) as (m & p & Hm & Hp); [discriminate|].
+      pose proof (Gsum_mu_pos (cn_list n) k m p Hm Hp) as Hpos.
+      assert (Hs : ev (EMultSum (t :: ts)) = XR (Gsum_mu (cn_list n) k)).
+      { rewrite <- Et. unfold cn_gi_terms_mu.
+        change (ev (EMultSum ?l)) with (xsum (map (fun e => ev e) l)).
+        now apply ev_gi_terms_mu. }
+      rewrite Hs. simpl.
+      rewrite Rltb'_true by (apply Rmult_lt_0_compat; assumption). reflexivity.
+  Qed.
+
+  Lemma logcnlmu_value a ch0 t0 :
+    av_covers av (keys U) -> cnests_ok Phi en (cn_arg_nests a) ->
+    logcnlmu pU av a ch0 mu = Ok t0 ->
+    exists n zd, cn_make pU a = Ok n /\ cn_guard pU av n zd = Ok tt /\
+      forall i ch, In i (keys U) -> pvx ch = XR (IZR i) ->
+        exists l, logcnlmu pU av a ch mu = Ok l /\ cnlmu pU av a ch mu = Ok (EUn Exp l) /\
+          ev l = (if Rnz (aval i) then XR (hcn_mu n i - ln (den aval (hcn_mu n) (keys U))) else XmInf) /\
+          ev (EUn Exp l) = XR (logit_p aval (hcn_mu n) (keys U) i).
+  Proof.
+    intros Hcov Hok E. destruct (logcnlmu_inv _ _ _ _ _ _ E) as (n & H & En & Eg & EH & Hall).
+    exists n, (zd_cn_mu mu (map cn_param (cn_list n))). split; [assumption|]. split; [assumption|].
+    intros i ch Hi Hch. destruct (Hall ch) as [E1 E2].
+    exists (loglogit_e H av ch). split; [assumption|]. split; [assumption|].
+    rewrite <- (cn_make_list _ _ _ En) in Hok.
+    pose proof (cn_H_values_mu n _ H Eg Hok EH) as HH.
+    assert (Hk : keys pU = keys U) by apply keys_dmap.
+    rewrite <- Hk in Hcov, Hi |- *.
+    destruct (logmev_f_value Phi en pU (cn_log_gi_mu pU av mu n) av aval (hcn_mu n) H EH Hav Hcov HH i ch Hi Hch)
+      as (_ & V1 & V2).
+    split; assumption.
+  Qed.
+End CnlMu.
+
+Section CnlMuThms.
+  Variable Phi : R -> R.
+  Variable en : env.
+  Notation ev e := (evalX Phi e en).
+  Notation pvx p := (pvX Phi en p).
+
+  (* T05f for cnlmu / logcnlmu *)
+  Theorem cnlmu_proper (U : dict expr) (av : avail) (a : cn_arg) (mu : pv) (muv : R) (aval uval : Z -> R) :
+    av_ok Phi en av aval -> av_covers av (keys U) -> (forall k, 0 <= aval k) ->
+    (forall k e, In (k, e) U -> ev e = XR (uval k)) ->
+    pvx mu = XR muv -> 0 < muv ->
+    cnests_ok Phi en (cn_arg_nests a) ->
+    (exists k, In k (keys U) /\ aval k <> 0) ->
+    (exists ch0 t0, logcnlmu (pe_dict U) av a ch0 mu = Ok t0) ->
+    exists p,
+      (forall i ch, In i (keys U) -> pvx ch = XR (IZR i) ->
+         exists l, logcnlmu (pe_dict U) av a ch mu = Ok l /\
+                   cnlmu (pe_dict U) av a ch mu = Ok (EUn Exp l) /\
+                   ev (EUn Exp l) = XR (p i) /\
+                   ev l = (if Rnz (aval i) then XR (ln (p i)) else XmInf)) /\
+      is_distribution (keys U) aval p.
+  Proof.
+    intros Hav Hcov Hnn HU Hmu Hpos Hok Hex (ch0 & t0 & E).
+    destruct (logcnlmu_value Phi en U av aval uval mu muv Hav Hnn HU Hmu Hpos a ch0 t0 Hcov Hok E)
+      as (n & zd & En & Eg & Hall).
+    exists (logit_p aval (hcn_mu Phi en aval uval mu muv n) (keys U)). split; [|now apply logit_distribution].
+    intros i ch Hi Hch. destruct (Hall i ch Hi Hch) as (l & E1 & E2 & V1 & V2).
+    exists l. repeat split; try assumption. rewrite V1.
+    destruct (Rnz (aval i)) eqn:Ea; [|reflexivity].
+    rewrite ln_logit_p by (try apply Rnz_true; assumption). reflexivity.
+  Qed.
+
+  Lemma pa_exact mu mu_m x y :
+    mu_exact mu mu_m -> pvx mu = XR x -> pvx mu_m = XR y -> x <> 0 -> pa_of Phi en mu mu_m = y / x.
+  Proof.
+    intros He Hx Hy Hz. unfold pa_of. destruct mu as [a|e], mu_m as [d|e'].
+    - destruct He as [_ E2]. unfold pvX in *. simpl in *. injection Hx as <-. injection Hy as <-.
+      unfold pdiv. simpl. now rewrite E2.
+    - rewrite (pvX_pdiv_PE_l Phi en e' (PN a) y x Hy Hx Hz). reflexivity.
+    - rewrite (pvX_pdiv_PE_r Phi en (PN d) e y x Hy Hx Hz). reflexivity.
+    - rewrite (pvX_pdiv_PE_l Phi en e' (PE e) y x Hy Hx Hz). reflexivity.
+  Qed.
+
+  Definition cmus_exact (mu : pv) (l : list cnest) : Prop :=
+    mu1_exact mu /\ forall m, In m l -> mu_exact mu (cn_param m).
+
+  (* T06c (cross-nested): explicit scale mu = 1 *)
+  Theorem cnlmu_one (U : dict expr) (av : avail) (a : cn_arg) (mu : pv) (aval uval : Z -> R) :
+    av_ok Phi en av aval -> av_covers av (keys U) -> (forall k, 0 <= aval k) ->
+    (forall k e, In (k, e) U -> ev e = XR (uval k)) ->
+    pvx mu = XR 1 ->
+    cnests_ok Phi en (cn_arg_nests a) -> cnests_exact (cn_arg_nests a) -> cmus_exact mu (cn_arg_nests a) ->
+    forall i ch l l', In i (keys U) -> pvx ch = XR (IZR i) ->
+      logcnlmu (pe_dict U) av a ch mu = Ok l -> logcnl (pe_dict U) av a ch = Ok l' ->
+      ev l = ev l' /\ ev (EUn Exp l) = ev (EUn Exp l').
+  Proof.
+    intros Hav Hcov Hnn HU Hmu Hok Hex Hmx i ch l l' Hi Hch E E'.
+    assert (Hpos : 0 < 1) by lra.
+    destruct (logcnlmu_value Phi en U av aval uval mu 1 Hav Hnn HU Hmu Hpos a ch l Hcov Hok E)
+      as (n & zd & En & Eg & Hall).
+    destruct (logcnl_value Phi en U av aval uval Hav Hnn HU a ch l' Hcov Hok E') as (n' & zd' & En' & Eg' & Hall').
+    assert (n' = n) by congruence. subst n'.
+    destruct (Hall i ch Hi Hch) as (l1 & F1 & _ & V1 & V2).
+    destruct (Hall' i ch Hi Hch) as (l2 & F2 & _ & W1 & W2).
+    assert (l1 = l) by congruence. assert (l2 = l') by congruence. subst l1 l2.
+    pose proof (cn_make_list _ _ _ En) as Hl. rewrite <- Hl in Hok, Hex, Hmx.
+    destruct Hmx as [Hm1 Hme].
+    assert (Hs : forall k, In k (keys U) -> aval k <> 0 ->
+                 hcn_mu Phi en aval uval mu 1 n k = hcn Phi en aval uval n k + 0).
+    { intros k _ Ha. unfold hcn_mu, hcn. destruct (memZ k (cn_alone n)).
+      - rewrite (cm1_exact Phi en mu 1 Hm1 Hmu), ln_1. ring.
+      - assert (HG : Gsum_mu Phi en aval uval mu (cn_list n) k = Gsum Phi en aval uval (cn_list n) k).
+        { unfold Gsum_mu, Gsum. apply Rsum_ext. intros m Hm.
+          destruct (get (cn_alpha m) k) as [p|]; [|reflexivity].
+          destruct (Hok m Hm) as [(mm & Hmm & Hnz) _].
+          unfold cterm_mu, cterm.
+          assert (H10 : (1:R) <> 0) by lra.
+          rewrite (pa_exact mu _ 1 mm (Hme m Hm) Hmu Hmm H10).
+          rewrite (c2mu_exact Phi en mu _ 1 mm (Hme m Hm) Hmu Hmm Hnz).
+          rewrite (em_exact Phi en _ mm (Hex m Hm) Hmm Hnz).
+          assert (Hmm' : muR Phi en (cn_param m) = mm) by (unfold muR; now rewrite Hmm). rewrite Hmm'.
+          replace (mm / 1) with mm by field. replace (1 / mm - 1) with ((1 - mm) / mm) by (field; assumption).
+          reflexivity. }
+        rewrite HG, Rmult_1_l. ring. }
+    rewrite V1, V2, W1, W2. split.
+    - destruct (Rnz (aval i)) eqn:Ea; [|reflexivity]. f_equal.
+      apply Rnz_true in Ea. exact (loglogit_shift aval _ _ (keys U) 0 i Hs Hi Ea).
+    - f_equal. exact (logit_p_shift aval _ _ (keys U) 0 i Hs Hi).
+  Qed.
+
+  Lemma cterm_mu_shift aval uval mu muv c m i p :
+    (forall k, 0 <= aval k) -> pvx mu = XR muv -> 0 < muv ->
+    cnest_ok Phi en m -> nl_exact (cn_param m) -> mu_exact mu (cn_param m) ->
+    In (i, p) (cn_alpha m) -> aval i <> 0 ->
+    forall a, cterm_mu Phi en aval (fun k => uval k + c) mu m i a
+              = exp ((muv - 1) * c) * cterm_mu Phi en aval uval mu m i a.
+  Proof.
+    intros Hnn Hmu Hpos [(mm & Hmm & Hnz) Hal] Hex Hme Hin Ha a. unfold cterm_mu.
+    assert (Hmm' : muR Phi en (cn_param m) = mm) by (unfold muR; now rewrite Hmm). rewrite Hmm'.
+    rewrite bsum_shift.
+    assert (HB : 0 < bsum aval uval (pa_of Phi en mu (cn_param m)) mm (alphasR Phi en m)).
+    { apply (bsum_pos aval uval _ mm _ i (alR Phi en p)); [assumption| |assumption].
+      unfold alphasR. apply (in_map (fun jp => (fst jp, alR Phi en (snd jp))) _ (i, p)). assumption. }
+    rewrite <- Rpower_mult_distr by (try apply exp_pos; assumption).
+    rewrite Rpower_exp.
+    rewrite (c1_exact Phi en _ mm Hex Hmm), (c2mu_exact Phi en mu _ muv mm Hme Hmu Hmm Hnz).
+    replace ((mm - 1) * (uval i + c)) with ((mm - 1) * uval i + (mm - 1) * c) by ring.
+    rewrite exp_plus.
+    replace ((muv / mm - 1) * (mm * c)) with ((muv - 1) * c + - ((mm - 1) * c)) by (field; assumption).
+    rewrite exp_plus, exp_Ropp. pose proof (exp_pos ((mm - 1) * c)). field. lra.
+  Qed.
+
+  Lemma hcn_mu_shift aval uval mu muv n c i :
+    (forall k, 0 <= aval k) -> pvx mu = XR muv -> 0 < muv ->
+    cnests_ok Phi en (cn_list n) -> cnests_exact (cn_list n) -> cmus_exact mu (cn_list n) ->
+    aval i <> 0 ->
+    (memZ i (cn_alone n) = false -> exists m p, In m (cn_list n) /\ get (cn_alpha m) i = Some p) ->
+    hcn_mu Phi en aval (fun k => uval k + c) mu muv n i = hcn_mu Phi en aval uval mu muv n i + muv * c.
+  Proof.
+    intros Hnn Hmu Hpos Hok Hex [Hm1 Hme] Ha Hne. unfold hcn_mu. destruct (memZ i (cn_alone n)) eqn:Eal.
+    - rewrite (cm1_exact Phi en mu muv Hm1 Hmu). ring.
+    - assert (HG : Gsum_mu Phi en aval (fun k => uval k + c) mu (cn_list n) i
+                   = exp ((muv - 1) * c) * Gsum_mu Phi en aval uval mu (cn_list n) i).
+      { unfold Gsum_mu. rewrite <- Rsum_scal. apply Rsum_ext. intros m Hm.
+        destruct (get (cn_alpha m) i) as [p|] eqn:Eg; [|ring].
+        apply (cterm_mu_shift aval uval mu muv c m i p); auto. now apply get_In. }
+      rewrite HG. destruct (Hne eq_refl) as (m & p & Hm & Hp).
+      pose proof (Gsum_mu_pos Phi en aval uval mu (cn_list n) i m p Hm Hp) as HGp.
+      replace (muv * (exp ((muv - 1) * c) * Gsum_mu Phi en aval uval mu (cn_list n) i))
+        with (exp ((muv - 1) * c) * (muv * Gsum_mu Phi en aval uval mu (cn_list n) i)) by ring.
+      rewrite ln_mult by (try apply exp_pos; apply Rmult_lt_0_compat; assumption).
+      rewrite ln_exp. ring.
+  Qed.
+
+  (* T05g for the cross-nested logit with explicit scale *)
+  Theorem cnlmu_shift_invariant (U U' : dict expr) (av : avail) (a : cn_arg) (mu : pv) (muv : R)
+      (aval uval : Z -> R) (c : R) :
+    av_ok Phi en av aval -> av_covers av (keys U) -> (forall k, 0 <= aval k) -> keys U' = keys U ->
+    (forall k e, In (k, e) U -> ev e = XR (uval k)) ->
+    (forall k e, In (k, e) U' -> ev e = XR (uval k + c)) ->
+    pvx mu = XR muv -> 0 < muv ->
+    cnests_ok Phi en (cn_arg_nests a) -> cnests_exact (cn_arg_nests a) -> cmus_exact mu (cn_arg_nests a) ->
+    forall i ch l l', In i (keys U) -> pvx ch = XR (IZR i) ->
+      logcnlmu (pe_dict U) av a ch mu = Ok l -> logcnlmu (pe_dict U') av a ch mu = Ok l' ->
+      ev l' = ev l /\ ev (EUn Exp l') = ev (EUn Exp l).
+  Proof.
+    intros Hav Hcov Hnn Hk HU HU' Hmu Hpos Hok Hex Hmx i ch l l' Hi Hch E E'.
+    destruct (logcnlmu_value Phi en U av aval uval mu muv Hav Hnn HU Hmu Hpos a ch l Hcov Hok E)
+      as (n & zd & En & Eg & Hall).
+    assert (Hcov' : av_covers av (keys U')) by now rewrite Hk.
+    destruct (logcnlmu_value Phi en U' av aval (fun k => uval k + c) mu muv Hav Hnn HU' Hmu Hpos a ch l' Hcov' Hok E')
+      as (n' & zd' & En' & Eg' & Hall').
+    assert (n' = n).
+    { rewrite (cn_make_keys (pe_dict U') (pe_dict U)) in En' by (unfold pe_dict; now rewrite !keys_dmap).
+      congruence. }
+    subst n'.
+    destruct (Hall i ch Hi Hch) as (l1 & F1 & _ & V1 & V2).
+    rewrite <- Hk in Hi. destruct (Hall' i ch Hi Hch) as (l2 & F2 & _ & W1 & W2). rewrite Hk in *.
+    assert (l1 = l) by congruence. assert (l2 = l') by congruence. subst l1 l2.
+    pose proof (cn_make_list _ _ _ En) as Hl. rewrite <- Hl in Hok, Hex, Hmx.
+    (* the builder succeeded: every alternative is alone or has a term *)
+    destruct (logcnlmu_inv _ _ _ _ _ _ E) as (n3 & H3 & En3 & _ & EH3 & _).
+    assert (n3 = n) by congruence. subst n3.
+    assert (Hne : forall k, In k (keys U) -> memZ k (cn_alone n) = false ->
+                  exists m p, In m (cn_list n) /\ get (cn_alpha m) k = Some p).
+    { intros k Hkk Eal. destruct (mev_h_inv _ _ _ EH3) as [Hk3 Hin3].
+      assert (Hk' : In k (keys H3)) by (rewrite Hk3; unfold pe_dict; now rewrite keys_dmap).
+      destruct (get_keys_In H3 k Hk') as (h & _ & Hkh).
+      destruct (Hin3 k h Hkh) as (v & g & _ & Hg & _).
+      unfold cn_log_gi_mu in Hg. rewrite Eal in Hg.
+      destruct (cn_gi_terms_mu (pe_dict U) av mu n k) as [|t ts] eqn:Et; [discriminate|].
+      apply (cn_gi_terms_mu_nonempty U av mu n k (t :: ts) Et). discriminate. }
+    assert (Hs : forall k, In k (keys U) -> aval k <> 0 ->
+                 hcn_mu Phi en aval (fun k0 => uval k0 + c) mu muv n k
+                 = hcn_mu Phi en aval uval mu muv n k + muv * c).
+    { intros k Hkk Ha. apply hcn_mu_shift; auto. }
+    rewrite V1, V2, W1, W2. split.
+    - destruct (Rnz (aval i)) eqn:Ea; [|reflexivity]. f_equal.
+      apply Rnz_true in Ea. exact (loglogit_shift aval _ _ (keys U) (muv * c) i Hs Hi Ea).
+    - f_equal. exact (logit_p_shift aval _ _ (keys U) (muv * c) i Hs Hi).
+  Qed.
+End CnlMuThms.
